@@ -32,8 +32,12 @@ func charsetOf(m *mimetype.MIME) (string, bool) {
 
 func c11Eval(cs *core.Case) (bool, string, string) {
 	m := detect(cs.In, cs.Limit)
-	if bare(m.String()) != "text/plain" {
-		return true, "skip", ""
+	if bt := bare(m.String()); bt != "text/plain" {
+		// Ints[0] == 1: a markup document without any encoding declaration; the
+		// same rules hold for its text/html or text/xml result
+		if !(len(cs.Ints) > 0 && cs.Ints[0] == 1 && (bt == "text/html" || bt == "text/xml")) {
+			return true, "skip", ""
+		}
 	}
 	h := header(cs.In, cs.Limit)
 	got, ok := charsetOf(m)
@@ -201,6 +205,43 @@ func c11Run(c *core.Ctx) {
 		unit++
 		if c.Mine(unit) {
 			try(bom.Bytes, 0, "B:behind-bom")
+		}
+	}
+	// E: markup without a declared encoding. Prologues that hold no declaration
+	// (but comments, scripts, other metas and pragmas that look like one) around
+	// bodies of each byte class; the text/html / text/xml result obeys the same rules
+	{
+		ms := &core.Case{Kind: "c11", Ints: []int{1}}
+		prologues := []string{
+			`<html><body>`, `<!DOCTYPE html><html><head><title>t</title></head><body>`,
+			`<html><!-- <meta charset="koi8-r"> --><body>`, `<html><head><script>var s='<meta charset="koi8-r">';</script></head><body>`,
+			`<html><head><title><meta charset="koi8-r"></title></head><body>`,
+			`<html><head><meta name="description" content="how to write charset=utf-8 in a page"></head><body>`,
+			`<html><head><meta http-equiv="Content-Type" content="text/html"></head><body>`,
+			`<html><head><meta http-equiv="Content-Type" content="text/html"><meta name="description" content="how to write charset=utf-8 in a page"></head><body>`,
+			`<html><head><meta name="description" content="charset=utf-8"><meta http-equiv="Content-Type" content="text/html"></head><body>`,
+			`<html><head><meta http-equiv="refresh" content="5; charset=utf-8"><meta name="viewport" content="width=device-width"></head><body>`,
+			`<html><head><meta charset=""></head><body>`,
+			`<?xml version="1.0"?><a>`, `<?xml version="1.0" standalone="yes"?><!-- encoding="koi8-r" --><a>`,
+		}
+		bodies := [][]byte{[]byte("plain words"), []byte("caf\xe9 au lait"), []byte("caf\xc3\xa9 au lait"), []byte("Wait\x85 voil\xe0"), []byte("\x93quoted\x94"), []byte("na\xc3"), []byte("x\xe2\x82"), []byte("d\xe9j\xe0 vu \xc3\xa9")}
+		for pi, pro := range prologues {
+			if !c.Mine(uint64(pi)) {
+				continue
+			}
+			for _, body := range bodies {
+				doc := append([]byte(pro), body...)
+				ms.In = doc
+				c.R.States++
+				for _, l := range []uint32{0, 3072, uint32(len(doc)), uint32(len(doc) - 1)} {
+					ms.Limit = l
+					c.R.Transitions++
+					c.R.Evals++
+					c.R.Nontrivial++
+					c.Check(ms)
+				}
+				c.SampleCase("E:undeclared-markup", ms)
+			}
 		}
 	}
 	// B2: every sequence of <= 3 items over specially encoded scalars (U+FFFD whose
